@@ -205,6 +205,13 @@ def directed(rng):
         add('eof-%d' % v, {}, [S(call(1)), S(note()), dict(a='peerclose'), D, hret('m1.1'), D])
         add('recverr-%d' % v, {}, [S(call(1)), D, dict(a='recverr'), D, hret('m1.1'), D])
         add('sendfail-%d' % v, {}, [S(call(1)), D, dict(a='sendfail'), hret('m1.1'), D, S(call(2)), D, hret('m2.1'), D])
+        # the channel's Close complains (after closing): the status still says how the connection ended - stopped, closed by
+        # the peer, or the channel's Recv error - and the server can be started again
+        add('closefail-%d' % v, {'recvUnblocks': True}, [dict(a='closefail'), S(call(1)), D, [dict(a='stop'), dict(a='peerclose'), dict(a='recverr')][v], D, hret('m1.1'), D,
+                                                         dict(a='restart'), S(call(1)), D, hret('m2.1'), D])
+        # a reply that could not be sent (a transient failure: the server goes on) has ended its call all the same: the id is free
+        add('sendfail-reuse-%d' % v, {}, [S(call(1)) if v != 1 else S(call(1), call(2)), D, dict(a='sendfail'), hret('m1.1'), D] + ([hret('m1.2'), D] if v == 1 else [])
+                                         + ([dict(a='sendheal')] if v != 2 else []) + [S(call(1)), D, hret('m2.1'), D, S(call(1), note()), D, hret('m3.1'), hret('m3.2'), D])
         add('restart-%d' % v, {'recvUnblocks': True}, [S(call(1)), D, dict(a='stop'), D, hret('m1.1'), D, dict(a='restart'), S(call(1)), D, hret('m2.1'), D])
         add('eofdata-%d' % v, {}, [dict(a='recveofdata', mem=[note() if v % 2 else call(1)]), D])
         # push: late / duplicate / unknown replies, callback from a notification handler behind the barrier
@@ -216,6 +223,9 @@ def directed(rng):
         add('f9-late-%d' % v, P, [S(call(1)), D, dict(a='callback', c='cbA', **{'from': 'm1.1'}), D, dict(a='ctxend', c='cbA'), D,
                                   S(reply(1, v)), D, hret('m1.1'), D])
         add('cb-dup-%d' % v, P, [dict(a='callback', c='cbA'), D, S(reply(1, v), reply(1, v + 1)), D, S(reply(1)), S(reply(7)), D])
+        # a handler that waits for the reply to its own callback is still executing: its slot is not for anybody else
+        add('cb-holds-slot-%d' % v, {'push': True, 'conc': 1 + v % 2}, [S(call(1)), D] + ([S(call(3)), D] if v % 2 else []) + [dict(a='callback', c='cbA', **{'from': 'm1.1'}), D,
+                                                                      S(call(2)), D, S(note()), D, S(reply(1, v)), D, hret('m1.1'), D, hret('m%d.1' % (2 + v % 2)), D])
         add('cb-note-%d' % v, P, [S(note()), D, dict(a='callback', c='cbA', **{'from': 'm1.1'}), S(call(1)), D, S(reply(1, v)), D, hret('m1.1'), D, hret('m2.1'), D])
         add('cb-two-%d' % v, P, [dict(a='callback', c='cbA'), dict(a='callback', c='cbB'), D, S(reply(2, v)), D, S(reply(1)), D])
         add('cb-stop-%d' % v, P, [dict(a='callback', c='cbA'), D, dict(a='stop'), D, dict(a='callback', c='cbB'), dict(a='notify'), D])
